@@ -24,8 +24,8 @@ def decNames (f : String) : Option (List String) := mapM? decName (splitList f)
 def parsePayload (s : String) : Option Payload :=
   if s == "-" then some .empty
   else if s == "eq" then some .eq
-  else if s == "sh" then some .short
-  else if s == "bad" then some .bad
+  else if s == "sh" || s == "sh1" || s == "sh3" then some .short
+  else if s == "bad" || s == "bad5" || s == "badp" then some .bad
   else if s.startsWith "v" then
     match hexDecode (s.drop 1).toString with
     | some [] => none
@@ -50,6 +50,9 @@ def showEq (b : Bytes) : String := if b.isEmpty then "eq" else "v" ++ hexEncode 
 def parseStep (s : String) : Option StepRes :=
   if s == "a" then some { kind := .authnErr }
   else if s == "e" then some { kind := .otherErr }
+  else if s == "pe" then some { kind := .otherErr, panic := some .errorVal }
+  else if s == "ps" then some { kind := .otherErr, panic := some .stringVal }
+  else if s == "pv" then some { kind := .otherErr, panic := some .otherVal }
   else if s.startsWith "m" then (parseBytes (s.drop 1).toString).map fun b => { kind := .more, resp := b }
   else if s.startsWith "d" then (parseBytes (s.drop 1).toString).map fun b => { kind := .done, resp := b }
   else none
@@ -113,30 +116,55 @@ def parsePerm (s : String) : Option (Bytes → Bytes → Bytes → Bool) :=
       pure fun user pass _ => user == u && pass == p
     | _ => none
 
+/-- the mechanism behind the name PLAIN on the receiving side: the real one with the
+permission callback of the case, which may be one that panics -/
+def parsePlain (s : String) : Option Mech :=
+  if s == "panic-e" then some (plainServerPanics .errorVal)
+  else if s == "panic-s" then some (plainServerPanics .stringVal)
+  else if s == "panic-v" then some (plainServerPanics .otherVal)
+  else (parsePerm s).map plainServer
+
+/-- which panics the implementation was seen to recover: three characters `0`/`1` for a
+panic value that is an error, a string, anything else -/
+def parsePol (s : String) : Option (PanicVal → Bool) :=
+  match s.toList with
+  | [a, b, c] =>
+    if [a, b, c].all (fun x => x == '0' || x == '1') then
+      some fun v => match v with
+        | .errorVal => a == '1'
+        | .stringVal => b == '1'
+        | .otherVal => c == '1'
+    else none
+  | _ => none
+
 def optNat (s : String) : Option (Option Nat) :=
   if s == "-" then some none else s.toNat?.map some
 
-def handleCli (budget cancel cm adv steps peer : String) : Option String := do
+def handleCli (budget cancel cm adv steps peer : String) (pols : String := "000") : Option String := do
+  let pol ← parsePol pols
   let b ← optNat budget
   let k ← optNat cancel
   let script ← mapM? parseStep (splitList steps)
   let evs ← mapM? parseCEv (splitList peer)
   let names ← decNames cm
   let advs ← decNames adv
-  let mechs := names.map fun n => (n, scriptMech script 0)
+  let mechs := guardCfg pol (names.map fun n => (n, scriptMech script 0))
   let r := if b.isNone && k.isNone then clientNeg mechs advs evs else clientNegE ⟨b, k⟩ mechs advs evs
   pure s!"{showBool r.authn} {r.err.toString} {(r.used.map encName).getD "-"} {joinList (r.sent.map showCSent)} {joinList (r.hist.map showBytes)}"
 
-def handleSrv (allScripted : Bool) (budget : Option Nat) (sm steps perm peer : String) : Option String := do
+def handleSrv (allScripted : Bool) (budget : Option Nat) (sm steps perm peer : String)
+    (pols : String := "000") (ctx : Option SCtx := none) : Option String := do
+  let pol ← parsePol pols
   let script ← mapM? parseStep (splitList steps)
   let evs ← mapM? parseSEv (splitList peer)
-  let pf ← parsePerm perm
+  let plain ← parsePlain perm
   let names ← decNames sm
-  let mechs := names.map fun n =>
-    if n == "PLAIN" && !allScripted then (n, plainServer pf) else (n, scriptMech script 1)
-  let r := match budget with
-    | none => serverSession mechs evs
-    | some b => serverSessionW mechs b evs
+  let mechs := guardCfg pol (names.map fun n =>
+    if n == "PLAIN" && !allScripted then (n, plain) else (n, scriptMech script 1))
+  let r := match budget, ctx with
+    | some b, _ => serverSessionW mechs b evs
+    | none, some c => serverSessionC mechs c evs
+    | none, none => serverSession mechs evs
   pure s!"{showBool r.authn} {r.err.toString} {joinList (r.sent.map showSSent)} {joinList (r.perms.map showPerm)} adv:{joinList ((advertised mechs).map encName)}"
 
 def parseCred (s : String) : Option (Bytes × Bytes) :=
@@ -180,6 +208,12 @@ def handle (args : List String) : Option String :=
   | ["clie", budget, cancel, cm, adv, steps, peer] => handleCli budget cancel cm adv steps peer
   | ["srv", sm, steps, perm, peer] => handleSrv false none sm steps perm peer
   | ["srvs", sm, steps, perm, peer] => handleSrv true none sm steps perm peer
+  | ["clip", pol, cm, adv, steps, peer] => handleCli "-" "-" cm adv steps peer pol
+  | ["srvp", pol, sm, steps, perm, peer] => handleSrv false none sm steps perm peer pol
+  | ["srvc", looks, k, sm, steps, perm, peer] => do
+    let c ← optNat k
+    if looks != "0" && looks != "1" then none
+    handleSrv false none sm steps perm peer "000" (some ⟨looks == "1", c⟩)
   | "concs" :: sched :: accept :: creds => handleConcS sched accept creds
   | "concc" :: _sched :: users => handleConcC users
   | ["srvw", n, sm, steps, perm, peer] => do
